@@ -19,9 +19,14 @@ theorem mapv_ok {α β} (f : α → β) (a : α) : (Outcome.ok a).mapv f = .ok (
 theorem deref_nonptr {e : Ty} (h : e.isPtr = false) : e.deref = e := by
   cases e <;> simp [Ty.isPtr] at h <;> rfl
 
-theorem readFixed_scalar (k : Kind) (n : Nat) (hk : k ≠ .string) (hb : k ≠ .binary) :
+theorem bool01 (n : Nat) (h : n < 2) : (if n = 1 then 1 else 0) = n := by
+  split <;> omega
+
+theorem readFixed_scalar (k : Kind) (n : Nat) (hk : k ≠ .string) (hb : k ≠ .binary)
+    (hbool : k = .bool → n < 2) :
     readFixed k.tt (scalarTVal k n) = .ok (.sc (normScalar k n)) := by
   cases k <;> simp [Kind.tt, scalarTVal, readFixed, normScalar] at *
+  exact bool01 n hbool
 
 theorem specFixed_scalar (k : Kind) (hk : k ≠ .string) (hb : k ≠ .binary) : specFixed k.tt > 0 := by
   cases k <;> simp [Kind.tt, specFixed] at *
@@ -258,6 +263,11 @@ theorem readSlot_norm : ∀ (v : Val) (t : Ty) (fuel tail : Nat) (slot : Val),
       cases k with
       | string => hasTy_absurd ht
       | binary => hasTy_absurd ht
+      | bool =>
+        have hn : n < 2 := by simpa [hasTy] using ht
+        rw [readSlot]
+        simp [toWire, Ty.tt, Kind.tt, specFixed, scalarTVal, readFixed, Outcome.mapv, wrapPtr, Ty.isPtr,
+          norm, normScalar, bool01 n hn]
       | _ =>
         rw [readSlot]
         simp [toWire, Ty.tt, Kind.tt, specFixed, scalarTVal, readFixed, Outcome.mapv, wrapPtr, Ty.isPtr,
